@@ -46,6 +46,12 @@ CHECKS["C07"] = ("exploration", "deterministic simulation, twin execution (2-saf
 CHECKS["C20"] = ("exploration", "deterministic simulation with crash/restore at arbitrary operation boundaries (durable state = the serde_json text only) compared in lock-step with a twin that is never power-cycled; structurally mutated documents",
  "A save / power-loss / restore-into-a-fresh-device step is inserted at 1-4 arbitrary boundaries of seeded histories (counters at 16/32-bit boundaries, no downlink yet, one-shot and sticky answers up to 15 bytes pending, owed ACK); at each restore the session equals its pre-image field by field (H1) and re-serialises to the same text, and the restored device is compared with a twin that keeps running: uplink bytes, responses to fresh and replayed downlinks, delivered payloads, every session field after every operation. One run in three restores from a structurally mutated document, which must be refused or leave every later operation panic-free. Sampling.",
  "Trusted: serde_json as storage, the harness re-applying the application's data-rate / ADR settings after a restore (the MAC configuration is not part of the persisted session). Crash points are operation boundaries; power loss inside a transaction is not modelled.", "6 (C20)")
+CHECKS["C14"] = ("fault_enumeration", "deterministic simulation of the PHY world: real LoRa + SX126x/SX127x drivers (+ LorawanRadio adapter) over emulated chips with a simulated clock; a transport fault walked over every SPI / BUSY / IRQ position of every step of 26 scenarios x 5 chip variants, cancellation at every droppable wait, seeded random scripts; chip-side monitors",
+ "Four monitors judged on the emulated chip and the driver's own mode (hook H2): wrong-mode calls are refused without bus traffic; no command reaches a sleeping chip (incl. RxDutyCycle sleep phases and wake-up BUSY) without a wake-up; every configuration item a TX/RX/CAD depends on was written since the last reset / cold wake-up when the operation starts; after a chip-reported failure chip and driver are in standby; bounded recovery once faults stop. The fault walk over positions is complete for the scenario set; random scripts are sampled.",
+ "Trusted: the chip models (stubs written from the SX1261/2 and SX1276/7/8/9, SX1272/3 datasheets; RF and packet timing not modelled), the reference mode tracker. 'Delivered but reported as failed' SPI faults and rf-switch faults are not injected. Two genuine defects are recorded as known findings (known_findings.json).", "6 (C14), Appendix B")
+CHECKS["C18"] = ("fault_enumeration", "deterministic simulation with a lying chip: the emulated SX126x/SX127x reports arbitrary (length, offset, status, rssi/snr) after RxDone, optional SPI fault on each read transaction; canary buffer oracle through driver, LoRa and LorawanRadio paths",
+ "The thorough tier walks the full grid 256 lengths x 256 offsets x 6 caller-buffer sizes x 2 chip families x 8 header-mode/access-path combinations in a seeded order (the quick tier samples it with boundary bias); every fetch must return Ok(len <= buffer) with exactly the chip buffer's bytes at the reported position (mod 256) and an untouched canary tail, or an error, and never panic (status conversion included, overflow checks on).",
+ "Trusted: chip models in lying mode, canary pattern. The adapter is driven through PhyRxTx directly (no MAC above it).", "6 (C18)")
 PENDING = {}
 
 def main():
@@ -87,6 +93,10 @@ def main():
         "engines": [
             {"name": "lorasim", "path": "/verif/sim/lorasim", "serves_properties": [p for p in CHECKS if p not in ("C14", "C18")],
              "kind_free_text": "deterministic discrete-event simulator of the LoRaWAN MAC world: real lorawan-device (both front-ends) over simulated radio, timer, RNG, ether, adversary, reference network server and storage; seeded scripts, fault injection, minimised replay files"},
+            {"name": "physim", "path": "/verif/sim/physim", "serves_properties": [p for p in CHECKS if p in ("C14", "C18")],
+             "kind_free_text": "deterministic simulator of the PHY world: real lora-phy LoRa / Sx126x / Sx127x / LorawanRadio over emulated chips (mode machine, IRQ logic, duty-cycle phases, config-loss, lying mode) with SPI / BUSY / IRQ faults and future cancellation on a simulated clock"},
+            {"name": "simcore", "path": "/verif/sim/simcore", "serves_properties": sorted(CHECKS),
+             "kind_free_text": "shared driver: seeded parallel batches (worker-count independent), known-findings triage, delta-debugging minimisation, replay files verified in a fresh process, evidence output"},
         ],
         "checks": checks,
         "not_applicable": na,
